@@ -51,5 +51,31 @@ Fixpoint idx_known_s (l : list synccase) (i : N) : list (N * N) :=
   end.
 Definition sync_run (l : list synccase) : list N * list N * list (N * N) :=
   (idx_filter_s sync_agree l 0, idx_filter_s sync_ok l 0, idx_known_s l 0).
+
+(* The same runs judged for the other properties that use them.
+   C08: the runs tie the monitor (write-token exclusion) to the client: trace inclusion only.
+   C10: the read routine and the publishes never wedge or panic (what Close/Disconnect do and
+        what calls return after them is C12's business; that requests return is C11's).
+   C11: Subscribe, Unsubscribe and Ping (kinds 6 7 5) return. *)
+Definition bad_call (a : apicall) : bool := hasbit (a_cls a) 2097152 || hasbit (a_cls a) 4194304.
+Definition sync_ok_c10 (c : synccase) : bool :=
+  match c with SyncCase _ calls =>
+    forallb (fun a => match a_kind a with 0 | 1 | 2 => negb (bad_call a) | _ => true end) calls
+  end.
+Definition sync_ok_c11 (c : synccase) : bool :=
+  match c with SyncCase _ calls =>
+    forallb (fun a => match a_kind a with 5 | 6 | 7 => negb (bad_call a) | _ => true end) calls
+  end.
+Fixpoint idx_known_c11 (l : list synccase) (i : N) : list (N * N) :=
+  match l with
+  | [] => []
+  | x :: r => if negb (sync_ok_c11 x) && f7_match x then (i, 7) :: idx_known_c11 r (i + 1) else idx_known_c11 r (i + 1)
+  end.
+Definition sync_run_c08 (l : list synccase) : list N * list N * list (N * N) :=
+  (idx_filter_s sync_agree l 0, [], []).
+Definition sync_run_c10 (l : list synccase) : list N * list N * list (N * N) :=
+  (idx_filter_s sync_agree l 0, idx_filter_s sync_ok_c10 l 0, []).
+Definition sync_run_c11 (l : list synccase) : list N * list N * list (N * N) :=
+  (idx_filter_s sync_agree l 0, idx_filter_s sync_ok_c11 l 0, idx_known_c11 l 0).
 Definition sync_debug (l : list synccase) :=
   map (fun c => match c with SyncCase tr _ => first_reject init_state tr 0 end) l.
